@@ -31,6 +31,7 @@ def run(ctx):
     n_random = 700 if quick else 8000
     max_w = 8 if quick else 64
     suite = cc.LinearSuite(ctx, "count-min sandwich violated on the implementation")
+    suite.max_hash_cases = 60 if quick else 400
 
     def pred(i, op, slot, before, after, bm, universe, extra):
         return cc.sandwich_violation(slot.sk, slot.truth, bm, universe, len(before[0]))
